@@ -337,20 +337,30 @@ def check(mod, tier, seed, replay=None):
             notes.append('leanchecker rejected: ' + out_c[-1500:])
 
     # 4. cases
-    if replay:
-        rep = json.loads(Path(replay).read_text())
-        cases = [rep['case']]
-    else:
-        cases = list(mod.corpus()) + list(mod.gen_cases(rng, tier))
     drv = Driver(getattr(mod, 'DRIVER', prop)) if driver_ok else None
-    results = mod.run_cases(cases, drv, tier)
+    harness_exc = None
+    try:
+        if replay:
+            rep = json.loads(Path(replay).read_text())
+            cases = [rep['case']]
+        else:
+            cases = list(mod.corpus()) + list(mod.gen_cases(rng, tier))
+        results = mod.run_cases(cases, drv, tier)
+    except (subprocess.TimeoutExpired, KeyboardInterrupt):
+        raise
+    except Exception:
+        # the harness could not drive the implementation (or its adaptive generator could not): on the unchanged tree this does
+        # not happen, so the correspondence no longer applies to this tree — reported like any broken correspondence
+        harness_exc = traceback.format_exc()
+        notes.append('the harness could not drive the implementation: ' + harness_exc.strip().split('\n')[-1])
+        results = []
 
     known = load_known_findings()
     listed = {k['id']: k for k in known.get('known', []) if k.get('property') == prop}
 
     corr_bad = [r for r in results if r.corr_ok is False]
     prop_bad = [r for r in results if r.prop_ok is False]
-    machinery_broken = (not proofs_ok) or (not driver_ok) or bool(corr_bad)
+    machinery_broken = (not proofs_ok) or (not driver_ok) or bool(corr_bad) or harness_exc is not None
 
     violations = []       # (result, kind)
     findings_seen = {}
@@ -372,7 +382,7 @@ def check(mod, tier, seed, replay=None):
     elif machinery_broken:
         # search harder before giving up: more cases, other seeds
         found = None
-        if not replay:
+        if not replay and harness_exc is None:
             for extra in range(1, 4):
                 rng2 = random.Random((seed, prop, extra).__repr__())
                 more = mod.run_cases(list(mod.gen_cases(rng2, tier)), drv, tier)
@@ -393,10 +403,13 @@ def check(mod, tier, seed, replay=None):
             if corr_bad:
                 r = corr_bad[0]
                 kind = 'impl≠model'
+            elif harness_exc is not None:
+                r = None
+                kind = 'correspondence: the harness could not drive the implementation'
             else:
                 r = None
                 kind = 'proof:' + (','.join(broken) if broken else 'audit/driver: ' + '; '.join(notes)[:300])
-            replay_path = write_replay(mod, seed, r, kind, notes, log=(log_p if not proofs_ok else log_d))
+            replay_path = write_replay(mod, seed, r, kind, notes, log=(harness_exc if harness_exc is not None and proofs_ok else log_p if not proofs_ok else log_d))
             print('VIOLATION property=%s replay=%s no-failing-input-found' % (prop, replay_path))
         rc = 1
 
